@@ -1,5 +1,6 @@
 import CifModel.Lemmas.Walk
 import CifModel.Lemmas.WalkH
+import CifModel.Lemmas.WalkHPos
 /-
   Property C14 — cif_walk visits every element once and obeys navigation directives.
 
@@ -16,7 +17,7 @@ import CifModel.Lemmas.WalkH
   keeps the counterexample as a statement about the pinned variant `walkLoopPinned`.
 -/
 namespace CifModel
-open Walk Spec.Traversal Lemmas.Walk Lemmas.WalkH
+open Walk Spec.Traversal Lemmas.Walk Lemmas.WalkH Spec.TraversalPos
 
 /-- the state after one more callback `e` -/
 def C14_push (w : W) (e : Ev) : W := { n := w.n + 1, log := e :: w.log }
@@ -296,22 +297,52 @@ theorem C14_handles_refine (p : Prog) (c : WCif) :
     (walkH p c).1.map (·.1) = (walk p c).1 ∧ (walkH p c).2 = (walk p c).2 :=
   walkH_erase p c
 
-/-- **Handles passed to callbacks are the elements announced.**  For every CIF and every handler program, every callback of the walk
-    is handed the handle of the element it announces, and that handle denotes this element in the CIF being walked (`Res`;
-    assumption of C14 and of cif.h: the handlers do not modify the CIF, so the CIF the handle is looked up in during the callback is
-    the CIF that is walked):
-    * block_start / block_end of code `b`: a container handle without parent (a path of length 1: `cif_container_assert_block`
-      answers CIF_OK) that denotes a container of the CIF with code `b`; frame_start / frame_end: a container handle WITH a parent
-      (CIF_ARGUMENT_ERROR) that denotes a container with that code — the `j`-th save frame of the container whose frames are being
-      walked;
-    * loop_start / loop_end: (container, position) of a loop of that container with the announced category and names;
-    * packet_start / packet_end: the packet at the iterator's position in the loop being walked, with the announced items;
-    * item: the item at that position of that packet, with the announced name and value. -/
-theorem C14_handles_are_elements (p : Prog) (c : WCif) : ∀ x ∈ (walkH p c).1, Res c x := by
-  intro x hx
-  have h := walkWH_res p c
-  unfold walkH at hx
-  exact h x (List.mem_reverse.mp hx)
+/-- **Handles passed to callbacks are the elements being walked — by POSITION, not by content** (review rA, finding A.2).
+    `fullTraversalH c` (Spec/TraversalPos.lean) lists every element of the CIF with its position — block `i`: `.cont [i]`; frame `j`
+    of the container at `path`: `.cont (path ++ [j])`; loop `i` of it: `.loop path i`; packet `j`: `.packet path i j`; item `k`:
+    `.item path i j k` — depth first, the start and the end entry of one element with the SAME position; it is written from the
+    shape of the CIF only (no program, no walker).  For every CIF and every handler program:
+    1. the (callback, handle) pairs of the walk are a SUBLIST of the positional traversal: the r-th callback delivered carries the
+       position of the entry of the positional traversal it is matched with, in traversal order — so a callback can not be given the
+       handle of another element with equal content (the other block's frame `f`, the equal packet next to it), the handle at an
+       end callback is the one of the start callback, packet and item handles lie under the `(path, i)` of their loop entry;
+    2. every entry of the positional traversal is resolved, by `lookup` / indexing from the root of the CIF, to the element it
+       announces (`Res`: kind of container, code; category and names; the packet at index `j`; the item at index `k`);
+    3. no (callback kind, position) occurs twice in the positional traversal, hence (4.) none twice among the delivered callbacks:
+       each element's handle is handed out at most once per callback kind;
+    5. forgetting the positions gives the event-only `fullTraversal` of the older C14 theorems;
+    6. (the previous statement) every delivered pair satisfies `Res`.
+    Witness of the difference: `ReviewRC14.fakeLog` (crossed handles, one position twice) satisfies 6 entry by entry, and is refuted
+    by 1 and by 4 (`example` below). -/
+theorem C14_handles_are_elements (p : Prog) (c : WCif) :
+    (walkH p c).1.Sublist (fullTraversalH c)
+    ∧ (∀ x ∈ fullTraversalH c, Res c x)
+    ∧ ((fullTraversalH c).map (fun x => (kind x.1, x.2))).Nodup
+    ∧ ((walkH p c).1.map (fun x => (kind x.1, x.2))).Nodup
+    ∧ (fullTraversalH c).map (·.1) = fullTraversal c
+    ∧ ∀ x ∈ (walkH p c).1, Res c x := by
+  refine ⟨Lemmas.WalkHPos.walkH_sublist p c, Lemmas.WalkHPos.pos_res c, Lemmas.WalkHPos.pos_nodup c, ?_,
+    Lemmas.WalkHPos.pos_erase c, ?_⟩
+  · exact ((Lemmas.WalkHPos.walkH_sublist p c).map _).nodup (Lemmas.WalkHPos.pos_nodup c)
+  · intro x hx
+    have h := walkWH_res p c
+    unfold walkH at hx
+    exact h x (List.mem_reverse.mp hx)
+
+/-- **All-CONTINUE: every element's handle, exactly once, in order.**  On a CIF without packet-less loops the walk under the handlers
+    that always answer CIF_TRAVERSE_CONTINUE delivers exactly the positional traversal — every element of the CIF is announced with
+    the handle of ITS position (two equal packets, two equal frames of different blocks: each with its own) — and returns CIF_OK. -/
+theorem C14_handles_all_continue (c : WCif) (hc : noEmptyLoops c = true) : walkH allCont c = (fullTraversalH c, OK) := by
+  have hs := Lemmas.WalkHPos.walkH_sublist allCont c
+  have he := walkH_erase allCont c
+  have ha := C14_all_continue c hc
+  have hlen : (walkH allCont c).1.length = (fullTraversalH c).length := by
+    have h1 : ((walkH allCont c).1.map (·.1)).length = ((fullTraversalH c).map (·.1)).length := by
+      rw [he.1, ha, Lemmas.WalkHPos.pos_erase]
+    simpa using h1
+  have h1 := hs.eq_of_length hlen
+  have h2 : (walkH allCont c).2 = OK := by rw [he.2, ha]
+  exact Prod.ext h1 h2
 
 /-- **Queries through the handles answer as the elements announced.**  Consequences of `C14_handles_are_elements` for the queries a
     handler can make through the handle it is given (and the `walk` executor makes inside every callback): for a container callback
@@ -343,7 +374,7 @@ theorem C14_handle_queries (p : Prog) (c : WCif) :
     ∧ (∀ e path i j k, (e, Handle.item path i j k) ∈ (walkH p c).1 →
       ∃ l pk nm v, lookupLoop c path i = some l ∧ l.packets[j]? = some pk ∧ pk[k]? = some (nm, v) ∧ e = .item nm v
         ∧ qLoopCategory c path i = some l.category ∧ qLoopNames c path i = some l.names) := by
-  have hres := C14_handles_are_elements p c
+  have hres := (C14_handles_are_elements p c).2.2.2.2.2
   refine ⟨?_, ?_, ?_, ?_⟩
   · intro e path hmem
     have hr := hres _ hmem
@@ -433,5 +464,14 @@ example : ((walkH allCont C14_demo).1.map (·.2)).contains (.cont [0, 0]) = true
     ∧ (walkH allCont C14_demo).1.length = 23 := by decide +kernel
 example : qCode C14_demo [0, 0] = some (a!"f") ∧ qAssertBlock [0, 0] = ARGUMENT_ERROR ∧ qAssertBlock [1] = OK
     ∧ qGetFrame C14_demo [0] (a!"f") = some (.cont [0, 0]) ∧ qItemLoop C14_demo [0] (a!"_b") = some (.loop [0] 0) := by decide +kernel
+
+-- non-vacuity of the positional statements: 23 positional entries on the demo CIF, delivered exactly under all-CONTINUE; two EQUAL
+-- packets of one loop are two entries with different positions
+example : (fullTraversalH C14_demo).length = 23 ∧ (walkH allCont C14_demo).1.map (·.2) = (fullTraversalH C14_demo).map (·.2) := by
+  decide +kernel
+example : noEmptyLoops C14_demo = true := by decide +kernel
+example : (fullTraversalH [.mk (a!"b") [] [{ category := none, names := [(a!"_a")], packets := [[((a!"_a"), .unk)], [((a!"_a"), .unk)]] }]]).map (·.2)
+    = [.cif, .cont [0], .loop [0] 0, .packet [0] 0 0, .item [0] 0 0 0, .packet [0] 0 0, .packet [0] 0 1, .item [0] 0 1 0,
+       .packet [0] 0 1, .loop [0] 0, .cont [0], .cif] := by decide +kernel
 
 end CifModel
